@@ -917,6 +917,56 @@ def run_7bit(ctx, n):
             problems.append('sender/recipients changed')
         if problems:
             ctx.fail('c20:7bit-conversion', case, '; '.join(problems))
+# ------------------------------------------------------------------ structured Content-Type x stray non-header lines inside the block (never raises)
+MIME_CTS = [None, b'text/plain; charset=utf-8', b'multipart/mixed; boundary="b1"', b'multipart/mixed', b'multipart/alternative; boundary=alt',
+            b'message/rfc822', b'message/delivery-status', b'message/global', b'application/octet-stream',
+            b'multipart/mixed; boundary="b1; charset', b'text/plain; charset=; =x; ;;', b'multipart/signed; protocol="p"; micalg=sha1; boundary=sig',
+            b'message/external-body; access-type=url', b'multipart/report; report-type=delivery-status; boundary=rep']
+MIME_CTES = [None, b'7bit', b'8bit', b'base64', b'quoted-printable', b'binary', b'x-unknown']
+MIME_STRAYS = [b'this line is not a header', 'kein Kopf: \u00e9\u00fc 8-bit'.encode()[:0] + 'stray \u00e9\u00fc 8-bit line'.encode(), b'--b1', b': x', b'   ',
+               b'--b1--', b'\xff\xfe raw', b'From no colon here']
+MIME_BODIES = [b'', b'plain body\r\n', b'--b1\r\nContent-Type: text/plain\r\n\r\npart one\r\n--b1--\r\n',
+               'Reporting-MTA: dns; a.example\r\n\r\nFinal-Recipient: rfc822; x@y.z\r\nAction: failed\r\n'.encode(),
+               'Subject: inner \u00e9\r\n\r\ninner body \u00e9\r\n'.encode(), b'\n\n--alt\n\nbare LF part\n--alt--\n']
+
+
+def mime_stray_case(ct, cte, mv, stray, pos, body, eol):
+    fields = [b'Subject: report']
+    if mv:
+        fields.insert(0, b'MIME-Version: 1.0')
+    if ct is not None:
+        fields.append(b'Content-Type: ' + ct)
+    if cte is not None:
+        fields.append(b'Content-Transfer-Encoding: ' + cte)
+    fields.append(b'X-Last: 1')
+    lines = list(fields)
+    if stray is not None:
+        at = {'before': 0, 'between': len(lines) - 1, 'after': len(lines)}[pos]
+        lines.insert(at, stray)
+    return b''.join(l + eol for l in lines) + eol + body
+
+
+def run_mime_stray(ctx):
+    rng = ctx.rng
+    datas = []
+    k = 0
+    for ct in MIME_CTS:
+        for stray in [None] + MIME_STRAYS:
+            for pos in ('before', 'between', 'after'):
+                if stray is None and pos != 'after':
+                    continue
+                for bi, body in enumerate(MIME_BODIES):
+                    if ctx.quick and (bi + k) % 3 == 2:
+                        k += 1
+                        continue
+                    combos = [(MIME_CTES[k % len(MIME_CTES)], bool(k % 2), CRLF if k % 3 else b'\n')] if ctx.quick else \
+                             [(cte, mv, eol) for cte in MIME_CTES for mv in (False, True) for eol in (CRLF, b'\n')]
+                    k += 1
+                    for cte, mv, eol in combos:
+                        datas.append(mime_stray_case(ct, cte, mv, stray, pos, body, eol))
+    run_arbitrary(ctx, datas, 'mime-stray')
+    return len(datas)
+
 
 # ------------------------------------------------------------------ sequences of operations on ONE envelope object
 OPS_BASES = [
@@ -1163,6 +1213,7 @@ def run(ctx):
     run_nesting(ctx)
     run_sizes(ctx)
     run_ops(ctx)
+    run_mime_stray(ctx)
     run_7bit(ctx, 500 if q else 6000)
     ctx.extra['exhaustive'] = True
     ctx.extra['exhaustive_bound'] = ('boundary search: all %d byte strings over {CR,LF,SP,a,TAB} up to length %d; parse/flatten/copy/pickle never-raise '
